@@ -15,6 +15,9 @@ Nothing is registered here.  harness/props/c09.py calls (between "C09W hook" mar
         equality of the store operations holds) and its observation of the returned store must equal the snapshot after
         the update EXACTLY (tie): node dict order, parents, children order, leg permutations, recorded shapes, tensor
         dict order, raw tensor shapes, root, centre,
+      - `bug_hypb` (Evo/BUGStoreTotal.v) is evaluated on the same literal and visiting tree: the hypotheses of the universal
+        acceptance theorem C09_store_step_accepts (wfb, tree structure, root = centre, fresh temporaries, one open leg on
+        every leaf below the root) hold for the caller's state (instance obligation),
       - instance obligations: `iso_check` of the model's final store (every non-root node is one Q atom of a QR kernel
         call whose bond wire is its parent leg), `wfb` of the model's final store, and `shapes_agree`: the rank
         arithmetic of Sched/BUG.v (`shape_root` on the shapes read off the initial store) gives exactly the shapes of the
@@ -127,6 +130,16 @@ def visit_tree(events, root):
         elif e[0] == "Leave":
             stack.pop()
     return top
+
+
+HIMPORTS = IMPORTS + " From PTN Require Evo.BUGStoreTotal."
+
+
+def hyp_expr(sn0, events):
+    """the executable checker of the hypotheses of the acceptance theorem (C09_store_step_accepts) on the caller's state"""
+    t = visit_tree(events, idnum(sn0["root"]))
+    centre = coq_opt(None if sn0["centre"] is None else idnum(sn0["centre"]), coq_nat)
+    return (f"BUGStoreTotal.bug_hypb {coq_nat(BCOFF)} {coq_nat(RID)} {util.coq_rtree(t)} ({store_literal(sn0)}, {centre})")
 
 
 def expr(fixed, sn0, events, fn="bug_case"):
@@ -298,14 +311,20 @@ def run(ctx, cases, obs, limit=None):
     good = [(r, e) for r, e in zip(recs, exprs) if e is not None]
     uniq = sorted(set(e for _, e in good))
     vals = dict(zip(uniq, coq_eval(ctx, IMPORTS, uniq, shard=max(4, len(uniq) // 14 + 1), scope="nat_scope", timeout=600)))
+    # the hypotheses of the universal acceptance theorem (Evo/BUGStoreTotal.v) on the same states
+    hexprs = [hyp_expr(r[3], r[5]) for r, _ in good]
+    huniq = sorted(set(hexprs))
+    hvals = dict(zip(huniq, coq_eval(ctx, HIMPORTS, huniq, shard=max(4, len(huniq) // 14 + 1), scope="nat_scope", timeout=600)))
     n = ok = 0
     fails = []
-    for (r, e) in good:
+    for (r, e), he in zip(good, hexprs):
         (ob, what, fixed, sn0, sn1, events, bcs) = r
         try:
             obl, tie = check_one(what, sn1, vals[e])
         except Exception as ex:  # noqa
             obl, tie = [("model output shape", False)], f"{what}: cannot interpret the model output: {type(ex).__name__}: {ex}"
+        obl = obl + [("hypotheses of the acceptance theorem C09_store_step_accepts hold for the caller's state (bug_hypb)",
+                      hvals.get(he) is True)]
         if tie and not ob.get("w_tie"):
             ob["w_tie"] = "store-level tie: " + tie
         for name, g in obl:
